@@ -108,6 +108,7 @@ type Frame struct {
 	callPath string
 	freeVars []Value
 	hdrEntryPhi map[*ssa.BasicBlock]map[*ssa.Phi]Value
+	curArgTypes []types.Type
 }
 
 type deferred struct {
